@@ -30,16 +30,26 @@ def getChunkData (virtualIO : Bool) (datalen len : Nat) (ans : Nat) : Option Int
 end Sf.ChunkQuery
 
 /-
-  nist_read_header (src/nist.c:160):
-      char str [64] ;                                   — not initialised
+  nist_read_header (src/nist.c:158), as it is since /repo 6408f3b:
+      char str [64] ;                                   — not initialised at its declaration
       if ((cptr = strstr (psf_header, "sample_coding -s")))
-      {   sscanf (cptr, "sample_coding -s%d %63s", &count, str) ;      — result not checked
+      {   str [0] = 0 ;                                                  — the repair (`Rule.current`)
+          sscanf (cptr, "sample_coding -s%d %63s", &count, str) ;       — result not checked
           if (strcmp (str, "pcm") == 0) … else psf_log_printf (psf, "*** Unknown encoding : %s\n", str) ;
   `matched` = what sscanf returned (0, 1 or 2; it is 2 exactly when a number AND a word follow).
 -/
 namespace Sf.NistCoding
 
-/-- is `str` a C string written by this call when strcmp / %s read it? -/
-def strDefined (matched : Nat) : Bool := decide (2 ≤ matched)
+inductive Rule where
+  | old        -- before 6408f3b: no `str [0] = 0`
+  | current
+deriving Repr, DecidableEq, Inhabited
+
+/-- is `str` a C string written by this call when strcmp / %s read it?
+    old: only when the second conversion stored a word; current: always ("" or the word) -/
+def strDefined (r : Rule) (matched : Nat) : Bool :=
+  match r with
+  | .old => decide (2 ≤ matched)
+  | .current => true
 
 end Sf.NistCoding
